@@ -9,11 +9,11 @@ from mc.core import Acc, Hang, horizon
 ID = "C13"
 RULE = ("E-INPUT: every ordered pair of end points from {0, +-m x 10^e : m in 11 mantissas, e in -6..9 (quick: step 3)} that "
         "meets the statement's span conditions, plus a seeded mantissa set, x m in 1..100 and the default, through the real "
-        "LinearScale().domain(..).ticks(m)/tickFormat(m); on every 5th domain also call sequences on one live scale (ticks, nice, ticks / ticks, domain, ticks / ticks, copy, nice) judged against the domain the scale then reports. Oracle: step of form {1,2,5}x10^k, increasing, equal gaps, multiples "
+        "LinearScale().domain(..).ticks(m)/tickFormat(m); on every 5th domain also call sequences on one live scale (ticks, nice, ticks / ticks, domain, ticks / ticks, copy, nice) judged against the domain the scale then reports; on every 7th domain the plain cases again under two process-wide settings an application may have chosen (a 4-digit decimal context, DEBUG logging enabled). Oracle: step of form {1,2,5}x10^k, increasing, equal gaps, multiples "
         "of the step, inside the domain, complete at both ends, count bounds, distinct texts that read back. "
         "Non-trivial: >= 2 ticks.")
 ASSUMPTIONS = ["float tolerances: 1e-6 of a step for gap equality/multiples/completeness, 1e-9 step for in-domain, 1e-3 step for read-back"]
-REQUIRED_COUNTERS = ("tick_sets", "reversed_domains", "step_1", "step_2", "step_5", "history_sequences", "threshold_cases")
+REQUIRED_COUNTERS = ("tick_sets", "reversed_domains", "step_1", "step_2", "step_5", "history_sequences", "threshold_cases", "ambient_setting_cases")
 EPS = 2.220446049250313e-16
 TICK_CAP = 10000
 
@@ -193,6 +193,42 @@ def threshold_domains(m):
                     yield start, start + span
 
 
+AMBIENT = ("decimal-context", "debug-logging")
+
+
+class ambient:
+    """Process-wide settings an application is free to choose; the ticks of a scale must not depend on them."""
+    def __init__(self, kind):
+        self.kind = kind
+
+    def __enter__(self):
+        import decimal
+        import logging
+        if self.kind == "decimal-context":
+            self.saved = decimal.getcontext()
+            decimal.setcontext(decimal.Context(prec=4, rounding=decimal.ROUND_DOWN))
+        elif self.kind == "debug-logging":
+            root = logging.getLogger()
+            self.saved = (root.level, logging.root.manager.disable)
+            self.handler = logging.NullHandler()
+            root.addHandler(self.handler)
+            root.setLevel(logging.DEBUG)
+            logging.disable(logging.NOTSET)
+        return self
+
+    def __exit__(self, *exc):
+        import decimal
+        import logging
+        if self.kind == "decimal-context":
+            decimal.setcontext(self.saved)
+        elif self.kind == "debug-logging":
+            root = logging.getLogger()
+            root.removeHandler(self.handler)
+            root.setLevel(self.saved[0])
+            logging.disable(self.saved[1])
+        return False
+
+
 def plan(tier, seed):
     n = 64 if tier == "quick" else 256
     shards = [{"vals": "grid", "tier": tier, "mod": n, "rem": r} for r in range(n)]
@@ -228,6 +264,17 @@ def run_shard(shard):
             acc.trans += 1
             if bad:
                 acc.violation({"a": a, "b": b, "m": m}, bad[0], bad[1], order=(0 if shard["vals"] == "grid" else 1, i, m or 0))
+        if i % 7 == 3:  # every 7th domain also under two process-wide settings an application may have chosen
+            for kind in AMBIENT:
+                for m in lingrid.MS:
+                    with ambient(kind):
+                        bad = judge(a, b, m, None)
+                    acc.evals += 1
+                    acc.trans += 1
+                    acc.counters["ambient_setting_cases"] += 1
+                    if bad:
+                        acc.violation({"a": a, "b": b, "m": m, "ambient": kind}, bad[0] + ":" + kind, bad[1] + " (under " + kind + ")",
+                                      order=(4, i, m or 0))
         if i % 5 == 0:  # history slice on every 5th domain
             for kind, m, m2 in history_cases(a, b):
                 bad = judge_history(a, b, kind, m, m2, acc)
@@ -241,6 +288,10 @@ def run_shard(shard):
 
 
 def replay(case):
+    if case.get("ambient"):
+        with ambient(case["ambient"]):
+            bad = judge(case["a"], case["b"], case["m"])
+        return (bad[0] + ":" + case["ambient"], bad[1]) if bad else None
     if case.get("hist"):
         return judge_history(case["a"], case["b"], case["hist"], case["m"], case.get("m2"))
     return judge(case["a"], case["b"], case["m"])
